@@ -8,6 +8,8 @@ mod payload;
 mod rng;
 
 mod c01;
+mod c02;
+mod faults;
 
 use engine::{Property, RunCfg, Tier};
 
@@ -24,6 +26,7 @@ impl Ctx {
 fn build(id: &str, ctx: &Ctx) -> Option<Property> {
     Some(match id {
         "C01" => c01::build(ctx),
+        "C02" => c02::build(ctx),
         _ => return None,
     })
 }
